@@ -24,7 +24,7 @@ ASSUMPTIONS = [
     "by the scheduler returns a job; no wall-clock verdicts",
 ]
 MUST_REACH = ["pick", "sort_trajstate", "P_finite", "restart_probe"]
-JOB_TIMEOUT = 1500
+JOB_TIMEOUT = 2700
 
 
 def plan(tier, seed):
